@@ -24,6 +24,14 @@ def try_from_json(type, value):
     return type.from_json(value) if value is not None else None
 
 
+def try_to_str(value):
+    return str(value) if value is not None else None
+
+
+def try_from_str(type, value):
+    return type(value) if value is not None else None
+
+
 def try_as_directory(path):
     return path.as_directory() if path is not None else None
 
@@ -265,7 +273,7 @@ class Environment:
                 'data': {
                     'bfgdir': self.bfgdir.to_json(),
                     'backend': self.backend,
-                    'backend_version': str(self.backend_version),
+                    'backend_version': try_to_str(self.backend_version),
 
                     'host_platform': self.host_platform.to_json(),
                     'target_platform': self.target_platform.to_json(),
@@ -308,7 +316,7 @@ class Environment:
         # a Path object internally.
         if version < 6:
             backend = list_backends()[data['backend']]
-            data['backend_version'] = str(backend.version())
+            data['backend_version'] = try_to_str(backend.version())
             data['bfgpath'] = Path(data['bfgpath']).to_json()
 
         # ----- bfg v0.1.1 -----
@@ -399,7 +407,7 @@ class Environment:
         for i in ('bfgdir', 'srcdir', 'builddir'):
             setattr(env, i, Path.from_json(data[i]).as_directory())
 
-        env.backend_version = Version(data['backend_version'])
+        env.backend_version = try_from_str(Version, data['backend_version'])
         env.install_dirs = {
             InstallRoot[k]: Path.from_json(v).as_directory() if v else None
             for k, v in data['install_dirs'].items()
